@@ -329,7 +329,7 @@ func (fe *FnEnc) unknownCall(what string, args []Val, rt types.Type) Val {
 		via := fe.g.db.GhostVia[gn]
 		for _, a := range args {
 			if a.T != nil && types.TypeString(a.T, nil) == via {
-				fe.mem.ghost[gn] = fe.s.fresh("hg", fe.g.ghostSort(gn))
+				fe.mem.ghost[gn] = fe.s.fresh("hg", fe.s.ghostSortOf(gn))
 				fe.recordMod([]string{"ghost:" + gn})
 				break
 			}
@@ -1194,7 +1194,7 @@ func (fe *FnEnc) havocLvalue(ev *Eval, cl Clause) {
 		if x.Fn == "ghost" {
 			for _, a := range x.Args {
 				if n, ok := a.(*EName); ok {
-					fe.mem.ghost[n.Name] = s.fresh("hg", fe.g.ghostSort(n.Name))
+					fe.mem.ghost[n.Name] = s.fresh("hg", fe.s.ghostSortOf(n.Name))
 					fe.recordMod([]string{"ghost:" + n.Name})
 				}
 			}
